@@ -3,7 +3,10 @@ package main
 import (
 	"go/ast"
 	"go/token"
+	"os"
+	"path/filepath"
 	"sort"
+	"strconv"
 	"strings"
 )
 
@@ -39,7 +42,10 @@ import (
 //   - every function of package route that reads RouteDef.Weight refuses non-finite weights (repair of D02),
 //     the function that compiles route patterns compiles two different ones (host and path: repair of D03), no
 //     glob.MustCompile in package route;
-//   - every lookup closure of main.go calls route.GetTable() exactly once.
+//   - every lookup closure of main.go calls route.GetTable() exactly once;
+//   - the writers of the cell: every call of route.SetTable in the repository (all packages, test and verif files
+//     excluded, import aliases resolved), by package directory and whether the call is made on the calling
+//     goroutine ("sync") or from a `go` statement / function literal ("async").
 func init() {
 	register("C02", func(x *X) error {
 		x.UseNormalizedAST()
@@ -49,6 +55,7 @@ func init() {
 		c02Custom(x)
 		c02Panics(x)
 		c02Lookups(x)
+		c02Writers(x)
 		return nil
 	})
 }
@@ -517,7 +524,25 @@ func c02Cell(x *X) {
 		return strings.HasPrefix(callee, "var:atomic.Value.") || strings.HasPrefix(callee, "atomic.") || callee == "clear" || callee == "delete"
 	}
 	if fd := x.funcDecl("route", "", "SetTable"); fd != nil {
-		x.defStrList("setTableEvents", c02Events(x, "route", fd, nil, keepCell, func(ro string) bool { return strings.HasPrefix(ro, "var:") }))
+		ev := c02Events(x, "route", fd, nil, keepCell, func(ro string) bool { return strings.HasPrefix(ro, "var:") })
+		x.defStrList("setTableEvents", ev)
+		// derived: what SetTable does to shared state (calls on the cell / of sync/atomic / clear / delete, stores to
+		// package-level variables), and what happens before the first Store on the cell
+		var shared, before []string
+		stored := false
+		for _, e := range ev {
+			if strings.HasPrefix(e, "call:") || strings.HasPrefix(e, "set:") {
+				shared = append(shared, e)
+			}
+			if strings.HasPrefix(e, "call:var:atomic.Value.Store(") {
+				stored = true
+			}
+			if !stored {
+				before = append(before, e)
+			}
+		}
+		x.defStrList("setTableSharedEffects", shared)
+		x.defStrList("setTableBeforeStore", before)
 	}
 	if fd := x.funcDecl("route", "", "GetTable"); fd != nil {
 		x.defStrList("getTableEvents", c02Events(x, "route", fd, nil, func(string, []string) bool { return true }, nil))
@@ -669,6 +694,13 @@ func c02Watch(x *X) {
 	}
 	x.defNat("watchBackendLastTableAssignments", uint64(m))
 	x.defNat("watchBackendSetTableCalls", uint64(len(x.calls(fd.Body, "route.SetTable"))))
+	inText := 0
+	for _, e := range ev {
+		if strings.HasPrefix(e, "call:route.SetTable(") {
+			inText++
+		}
+	}
+	x.defNat("watchBackendTextBranchSetTableCalls", uint64(inText))
 	_ = n
 }
 
@@ -938,6 +970,95 @@ func c02Lookups(x *X) {
 	}
 	sort.Strings(counts)
 	x.defStrList("lookupClosures", counts)
+}
+
+// c02Writers: who calls route.SetTable, anywhere in the repository.
+func c02Writers(x *X) {
+	var dirs []string
+	filepath.Walk(x.repo, func(path string, info os.FileInfo, err error) error {
+		if err != nil {
+			return nil
+		}
+		if info.IsDir() {
+			n := info.Name()
+			if path != x.repo && (strings.HasPrefix(n, ".") || strings.HasPrefix(n, "_") || n == "vendor" || n == "testdata" || n == "docs" || n == "demo" || n == "build") {
+				return filepath.SkipDir
+			}
+			ents, _ := os.ReadDir(path)
+			for _, e := range ents {
+				if !e.IsDir() && strings.HasSuffix(e.Name(), ".go") && !strings.HasSuffix(e.Name(), "_test.go") && !strings.HasPrefix(e.Name(), "verif_") {
+					rel, _ := filepath.Rel(x.repo, path)
+					dirs = append(dirs, rel)
+					break
+				}
+			}
+		}
+		return nil
+	})
+	sort.Strings(dirs)
+	var sites []string
+	for _, dir := range dirs {
+		for _, f := range x.files(dir) {
+			// the local name of package route in this file ("" = this is package route itself)
+			name := ""
+			if dir != "route" {
+				for _, im := range f.Imports {
+					p, _ := strconv.Unquote(im.Path.Value)
+					if strings.HasSuffix(p, "/fabio/route") {
+						name = "route"
+						if im.Name != nil {
+							name = im.Name.Name
+						}
+					}
+				}
+				if name == "" || name == "_" {
+					continue
+				}
+			}
+			var walk func(n ast.Node, async bool)
+			walk = func(n ast.Node, async bool) {
+				ast.Inspect(n, func(m ast.Node) bool {
+					switch v := m.(type) {
+					case *ast.GoStmt:
+						if m != n {
+							walk(v.Call, true)
+							return false
+						}
+					case *ast.FuncLit:
+						if m != n {
+							walk(v.Body, true)
+							return false
+						}
+					case *ast.CallExpr:
+						hit := false
+						if se, ok := v.Fun.(*ast.SelectorExpr); ok && name != "" {
+							if id, ok := se.X.(*ast.Ident); ok && id.Name == name && se.Sel.Name == "SetTable" {
+								hit = true
+							}
+						}
+						if id, ok := v.Fun.(*ast.Ident); ok && name == "" && id.Name == "SetTable" {
+							hit = true
+						}
+						if hit {
+							if async {
+								sites = append(sites, dir+":async")
+							} else {
+								sites = append(sites, dir+":sync")
+							}
+						}
+					}
+					return true
+				})
+			}
+			for _, d := range f.Decls {
+				if fd, ok := d.(*ast.FuncDecl); ok && fd.Body != nil {
+					walk(fd.Body, false)
+				}
+			}
+		}
+	}
+	sort.Strings(sites)
+	x.defStrList("setTableCallers", sites)
 }
 
 func itoa(n int) string {
